@@ -318,7 +318,11 @@ func (g *G) boolExpr(depth int, role string) *N {
 	if depth <= 0 || g.budget <= 0 {
 		return g.boolLeaf(role)
 	}
-	switch g.t.Pick(6, 1, 1) {
+	switch g.t.Pick(6, 1, 1, 2) {
+	case 3:
+		// a comparison: both operands are evaluated, left first
+		op := []string{"<", "<=", ">", ">=", "==", "!="}[g.t.Intn(6)]
+		return &N{K: KInfix, Str: op, A: g.intExpr(depth-1, "infix/left"), B: g.intExpr(depth-1, "infix/right")}
 	case 0:
 		return g.boolLeaf(role)
 	case 1:
@@ -366,11 +370,19 @@ func (g *G) intExpr(depth int, role string) *N {
 		// try/Either as the enclosing handler: a failure in the body is absorbed
 		return &N{K: KTry, A: g.intExpr(depth-1, "try/recv"), B: g.funcLit(1, nil, false, true, depth, []string{"x"}), Str: "or", C: &N{K: KInt, Int: int64(700 + g.t.Intn(9))}}
 	}
+	if g.t.Chance(1, 25) {
+		// an assignment used as an expression (to a name nothing else reads)
+		return &N{K: KAssignE, Str: g.name("w"), A: g.intExpr(depth-1, "assign/rhs")}
+	}
 	switch g.t.Pick(5, 3, 1, 2, 2, 3, chainW, chainW) {
 	case 0:
 		return g.leafInt(role)
 	case 1:
-		return &N{K: KInfix, Str: g.ops(), A: g.intExpr(depth-1, "infix/left"), B: g.intExpr(depth-1, "infix/right")}
+		op := g.ops()
+		if g.t.Chance(1, 8) {
+			op = "<=>"
+		}
+		return &N{K: KInfix, Str: op, A: g.intExpr(depth-1, "infix/left"), B: g.intExpr(depth-1, "infix/right")}
 	case 2:
 		return &N{K: KPrefix, Str: "-", A: g.intExpr(depth-1, "prefix/operand")}
 	case 3:
